@@ -201,7 +201,7 @@ func genSpec(rng *rand.Rand, s bgpx.Sess, focus string, size int, uid uint32) bg
 }
 
 func genCase(rng *rand.Rand, i int) c17case {
-	foci := []string{"aspath", "prepend", "unknown", "cluster", "comms", "lcomms", "mixed", "small"}
+	foci := []string{"aspath", "prepend", "unknown", "cluster", "comms", "lcomms", "mixed", "small", "fill"}
 	focus := foci[i%len(foci)]
 	c := c17case{Mode: "sender", Focus: focus}
 	fam := rng.IntN(3)
@@ -226,6 +226,46 @@ func genCase(rng *rand.Rand, i int) c17case {
 	c.Path = genSpec(rng, c.Sess, focus, c.Size, uint32(i+1))
 	u := gen.Universe(rng, !c.Sess.V6, 4)
 	c.Pfxs = u[:1+rng.IntN(len(u))]
+	if focus == "fill" {
+		// hundreds of prefixes share one path so that the sender fills messages up to the 4096 byte limit; the
+		// path carries the attributes whose encoded size is easiest to get wrong (MED, ATOMIC_AGGREGATE,
+		// AGGREGATOR, ORIGINATOR_ID, CLUSTER_LIST of up to 120 ids)
+		c.Path.MED, c.Path.Atomic, c.Path.Aggr = 1+rng.Uint32N(1<<31), true, &[2]uint32{1 + rng.Uint32N(65000), rng.Uint32()}
+		if c.Sess.IBGP || rng.IntN(2) == 0 {
+			c.Path.OrigID = 1 + rng.Uint32N(1<<32-2)
+			c.Path.Cluster = make([]uint32, rng.IntN(121))
+			for j := range c.Path.Cluster {
+				c.Path.Cluster[j] = rng.Uint32()
+			}
+		}
+		n := 150 + rng.IntN(1300)
+		l := uint8(24)
+		if c.Sess.V6 {
+			l = uint8(40 + 8*rng.IntN(4))
+		} else if rng.IntN(2) == 0 {
+			l = uint8(17 + rng.IntN(16))
+		}
+		stem := rng.Uint64()
+		c.Pfxs = nil
+		for j := 0; j < n; j++ {
+			q := gen.P{V4: !c.Sess.V6, Len: l}
+			if q.V4 {
+				q.Hi = (stem&0xff00000000000000 | uint64(j)<<(64-uint(l))) & 0xffffffff00000000
+			} else {
+				q.Hi = 0x2001000000000000 | uint64(j)<<(64-uint(l))
+			}
+			c.Pfxs = append(c.Pfxs, q.Canon())
+		}
+		dedup := map[string]bool{}
+		out := c.Pfxs[:0]
+		for _, q := range c.Pfxs {
+			if !dedup[q.Key()] {
+				dedup[q.Key()] = true
+				out = append(out, q)
+			}
+		}
+		c.Pfxs = out
+	}
 	return c
 }
 
@@ -539,7 +579,7 @@ func runSmall(c c17case, rep reporter) {
 func main() {
 	vf.Main("C17", "exploration", func(r *vf.Run) {
 		bgpx.Quiet()
-		r.Rule("routes with one swept attribute dimension each (AS_PATH 0..600 ASNs in 1..4 segments; Prepend counts 0..400; one unknown transitive attribute of 0..700 bytes; CLUSTER_LIST 0..100; COMMUNITIES 0..900; LARGE_COMMUNITIES 0..300; a mixed block; small), sizes drawn uniformly and from the boundaries of one-byte lengths/counts, x {IPv4, IPv4-MP, IPv6-MP} x {eBGP, iBGP, RR client} x add-path x 2/4-octet AS, 1-4 prefixes; pushed into the real update sender (a quarter of the AS_PATH cases behind a real eBGP Adj-RIB-Out), flushed with EndOfRIB(), then one prefix withdrawn; plus every OPEN capability configuration peer.go can assemble, every NOTIFICATION code/subcode the FSM and the decoder's BGPError values can make bio-rd send, KEEPALIVE. distinct_nontrivial = cases in which bio-rd emitted at least one announcement (it did not decline to serialise), keyed by (focus, size, session)")
+		r.Rule("routes with one swept attribute dimension each (AS_PATH 0..600 ASNs in 1..4 segments; Prepend counts 0..400; one unknown transitive attribute of 0..700 bytes; CLUSTER_LIST 0..100; COMMUNITIES 0..900; LARGE_COMMUNITIES 0..300; a mixed block; small; fill = 150..1450 prefixes sharing one path with MED, ATOMIC_AGGREGATE, AGGREGATOR, ORIGINATOR_ID and a CLUSTER_LIST of 0..120 ids, so that messages are filled to the limit), sizes drawn uniformly and from the boundaries of one-byte lengths/counts, x {IPv4, IPv4-MP, IPv6-MP} x {eBGP, iBGP, RR client} x add-path x 2/4-octet AS, 1-4 prefixes; pushed into the real update sender (a quarter of the AS_PATH cases behind a real eBGP Adj-RIB-Out), flushed with EndOfRIB(), then one prefix withdrawn; plus every OPEN capability configuration peer.go can assemble, every NOTIFICATION code/subcode the FSM and the decoder's BGPError values can make bio-rd send, KEEPALIVE. distinct_nontrivial = cases in which bio-rd emitted at least one announcement (it did not decline to serialise), keyed by (focus, size, session)")
 		r.Assume("2-octet-AS sessions carry only ASNs below 65536 (bio-rd has no AS4_PATH; the statement does not define the content then)",
 			"how an AS_SEQUENCE is cut into segments is encoding, not content: adjacent sequences are compared merged",
 			"MED 0 may be omitted; LOCAL_PREF towards eBGP and ORIGINATOR_ID/CLUSTER_LIST towards a non-client may be omitted; attribute flags of recognised attributes are not content",
